@@ -1259,9 +1259,9 @@ impl PycParser {
         let n = self._read_long_signed()?;
 
         let mut result = 0_i32.to_bigint().unwrap();
-        for i in 0 .. n.abs() {
+        for i in 0 .. n.unsigned_abs() {
             let part = self._read_short()?;
-            result += part.to_bigint().unwrap() << (i * PYLONG_MARSHAL_SHIFT) as usize;
+            result += part.to_bigint().unwrap() << (i as usize * PYLONG_MARSHAL_SHIFT as usize);
         }
 
         Ok(Object::Long(result * n.signum(), flag_num).into())
